@@ -1,7 +1,7 @@
 (* Concrete stores: the hypotheses of the C11 theorems are satisfiable on non-trivial inputs, and the
    model computes what the property says.  Everything here is closed by vm_compute. *)
 From Coercion.Base Require Import Plan.
-From Coercion.Select Require Import Rows Select SelectSpec SelectProofs.
+From Coercion.Select Require Import Rows Select SelectSpec SelectProofs CrashProofs.
 
 Definition tk (n : N) : tok := {| t_blank := false; t_empty := false; t_ix := n |}.
 Definition ui (n : N) : uid := {| u_ix := n; u_v7 := true |}.
@@ -185,6 +185,31 @@ Example ex_vault_unrepaired_refutes :
   nth 1 (fst (open_workstream_late ex_now ex_stamp ex_maxage true ex_vault)) ex_fresh = close_plan ex_stamp ex_done /\
   close_plan ex_stamp ex_done <> ex_done.
 Proof. vm_compute. repeat split. discriminate. Qed.
+
+(* ---- a crash during the close of ex_aged (9 rows; stamp 10001), next start-up at 10100 ---- *)
+Definition ex_restart (s : store) : store * list N := select 10100 10101 ex_maxage true s.
+
+(* the code's order (plan row first): whatever the crash point j >= 1, the plan is not handed to runPlan
+   by the next incarnation ... *)
+Example ex_crash_safe_every_j :
+  forallb (fun j => match snd (ex_restart (crash_during_close j ex_now ex_stamp ex_maxage [ex_aged])) with
+                    | [] => true | _ => false end) (seq 1 9) = true.
+Proof. vm_compute. reflexivity. Qed.
+
+(* ... but the objects not yet written stay Running for good: the next incarnation does not consider the
+   plan (it is Failed), so nothing closes them.  j = 1: plan row Failed / ExceedRecovery, 5 rows Running *)
+Example ex_crash_leaves_children_running :
+  running_rows (fst (ex_restart (crash_during_close 1 ex_now ex_stamp ex_maxage [ex_aged]))) = 5 /\
+  running_rows (fst (ex_restart (crash_during_close 4 ex_now ex_stamp ex_maxage [ex_aged]))) = 4 /\
+  running_rows (fst (ex_restart (crash_during_close 9 ex_now ex_stamp ex_maxage [ex_aged]))) = 0.
+Proof. vm_compute. repeat split. Qed.
+
+(* C11-e (sub-objects first, plan row last): after 3 writes the block carries a fresh End stamp while
+   the plan is still Running: the next incarnation takes the plan for live and resumes it *)
+Example ex_plan_row_last_refuted :
+  snd (ex_restart (persist [ex_aged] (firstn 3 (writes_plan_last (age_out ex_stamp ex_aged))))) = [30%N] /\
+  snd (ex_restart (persist [ex_aged] (firstn 3 (writes_aged (age_out ex_stamp ex_aged))))) = [].
+Proof. vm_compute. split; reflexivity. Qed.
 
 (* the executable twins used by the monitor *)
 Example ex_monitor_twins :
